@@ -9,8 +9,10 @@ PRELUDE = """    #[diplomat::opaque]
     pub struct St1<'p> { pub f: &'p Opq }
     pub struct St2<'p, 'q> { pub f: &'p Opq, pub g: &'q Opq }
     pub struct St2b<'p, 'q: 'p> { pub f: &'p Opq, pub g: &'q Opq }
+    pub struct St2w<'p, 'q> where 'q: 'p { pub f: &'p Opq, pub g: &'q Opq }
     pub struct Nst2<'p, 'q> { pub a: St1<'p>, pub b: St2<'q, 'q> }
     pub struct StV<'p, 'q> { pub f: &'p OpLt<'q>, pub s: DiplomatSlice<'q, u8> }
+    pub struct StVo<'p, 'q> { pub f: Option<&'p OpLt<'q>>, pub s: DiplomatSlice<'q, u8> }
     #[diplomat::attr(auto, error)]
     pub struct Er1<'p> { pub f: &'p Opq }
     #[diplomat::attr(not(supports = option), disable)]
@@ -33,8 +35,10 @@ def pty(p):
             "slice": lambda: amp(s[0]) + "[u8]", "opqlt": lambda: "%sOpLt<%s>" % (amp(s[0]), lt(s[1])),
             "st1": lambda: "St1<%s>" % lt(s[0]), "st2": lambda: "St2<%s, %s>" % (lt(s[0]), lt(s[1])),
             "st2b": lambda: "St2b<%s, %s>" % (lt(s[0]), lt(s[1])),
+            "st2w": lambda: "St2w<%s, %s>" % (lt(s[0]), lt(s[1])),
             "nst2": lambda: "Nst2<%s, %s>" % (lt(s[0]), lt(s[1])),
             "stv": lambda: "StV<%s, %s>" % (lt(s[0]), lt(s[1])),
+            "stvo": lambda: "StVo<%s, %s>" % (lt(s[0]), lt(s[1])),
             "pself": lambda: amp(s[0]) + "Self"}[k]()
 
 
@@ -184,7 +188,7 @@ def backend_emission(rep, cases, L, wd, k):
     return nchecked
 
 
-STRUCT_OF_KIND = {"st1": "St1", "st2": "St2", "st2b": "St2b", "nst2": "Nst2", "stv": "StV", "sto": "StO"}
+STRUCT_OF_KIND = {"st1": "St1", "st2": "St2", "st2b": "St2b", "st2w": "St2w", "nst2": "Nst2", "stv": "StV", "stvo": "StVo", "sto": "StO"}
 
 
 def struct_buffers(rep, wd, buffers):
